@@ -57,7 +57,7 @@ def _mk(p, isdir=None):
     """create a file (last component has a dot that is not leading) or a folder"""
     name = os.path.basename(p)
     if isdir is None:
-        isdir = not ('.' in name[1:] or name.startswith('.'))
+        isdir = not ('.' in name[1:] or name.startswith('.')) or name == '.hidden'
     if not isdir:
         os.makedirs(os.path.dirname(p), exist_ok=True)
         if not os.path.exists(p):
@@ -124,7 +124,8 @@ def entity_list(cfg):
     root = pc['roots'][cfg]
     L = []
     for d, dirs, files in os.walk(root):
-        for n in dirs + files:
+        dirs[:] = [x for x in dirs if not x.startswith('.')]       # hidden names are sidecars / temporary files, never entities
+        for n in dirs + [f for f in files if not f.startswith('.')]:
             s = Sid(path=os.path.join(d, n).replace(os.sep, '/'), config=cfg)
             if s:
                 L.append(str(s))
